@@ -524,6 +524,12 @@ class ForestToParseTree(ForestTransformer):
         self._successful_visits = set()
 
     def visit(self, root):
+        # A previous walk may have been left by an exception raised in a user
+        # callback (e.g. on_cycle): never start from its leftover state.
+        self._cache = {}
+        self._on_cycle_retreat = False
+        self._cycle_node = None
+        self._successful_visits = set()
         if self.prioritizer:
             self.prioritizer.visit(root)
         super(ForestToParseTree, self).visit(root)
